@@ -267,6 +267,10 @@ class LiteralMarshaller(AbstractMarshaller[LiteralT], tp.Generic[LiteralT]):
         if val in self.values:
             # Emit the declared literal, which is a plain primitive, rather than the
             #   given object, which may be an instance of a subclass (e.g. an `IntEnum`).
+            #   (`1` and `True` are equal but different members: prefer the value's own class.)
+            for member in self.values:
+                if member == val and member.__class__ is val.__class__:
+                    return member  # type: ignore[return-value]
             return self.values[self.values.index(val)]  # type: ignore[return-value]
 
         raise ValueError(f"{val!r} is not one of {self.values!r}")
